@@ -199,6 +199,7 @@ private def jAction : Action → Json
   | .raiseAlias c => Json.mkObj [("raiseAlias", jnat c)]
   | .raiseDefault => Json.str "raiseDefault"
   | .raiseUnhandled => Json.str "raiseUnhandled"
+  | .raiseCatchAll => Json.str "raiseCatchAll"
 
 private def jStrategy : Strategy → Json
   | .none => Json.str "none"
